@@ -240,6 +240,10 @@ pub struct Case {
     pub chooser: Chooser,
     /// the visitor returns Quit at this (global, 0-based) visit index
     pub quit_at: Option<usize>,
+    /// the visitor answers `Skip` (documented to have no effect there) to error entries and to
+    /// entries that are not directories
+    #[serde(default)]
+    pub skip_answers: bool,
 }
 
 #[derive(Debug)]
@@ -271,8 +275,14 @@ pub fn run_schedule(case: &Case) -> RunResult {
     let dir = TempDir::new_in(scratch_base(), "c07");
     std::fs::create_dir_all(dir.path.join("r")).unwrap();
     for p in &case.tree {
-        let full = dir.path.join("r").join(p.trim_end_matches('/'));
-        if p.ends_with('/') {
+        let full = dir.path.join("r").join(p.trim_end_matches(['/', '@']));
+        if p.ends_with('@') {
+            // a dangling symbolic link: with links followed it is reported as an error entry
+            if let Some(parent) = full.parent() {
+                std::fs::create_dir_all(parent).unwrap();
+            }
+            std::os::unix::fs::symlink("no-such-target", &full).unwrap();
+        } else if p.ends_with('/') {
             std::fs::create_dir_all(&full).unwrap();
         } else {
             if let Some(parent) = full.parent() {
@@ -325,10 +335,12 @@ pub fn run_schedule(case: &Case) -> RunResult {
         let counter = counter.clone();
         let root = root.clone();
         let quit_at = case.quit_at;
+        let follow = case.tree.iter().any(|p| p.ends_with('@'));
+        let skip_answers = case.skip_answers;
         std::thread::spawn(move || {
             let res = std::panic::catch_unwind(std::panic::AssertUnwindSafe(|| {
                 let mut b = WalkBuilder::new(&root);
-                b.standard_filters(false).threads(n);
+                b.standard_filters(false).threads(n).follow_links(follow);
                 b.build_parallel().run(|| {
                     let visited = visited.clone();
                     let counter = counter.clone();
@@ -340,8 +352,14 @@ pub fn run_schedule(case: &Case) -> RunResult {
                             Err(e) => format!("<error: {e}>"),
                         };
                         visited.lock().unwrap().push(name);
+                        let not_a_dir = match &ent {
+                            Ok(e) => !e.file_type().map_or(false, |t| t.is_dir()),
+                            Err(_) => true,
+                        };
                         if Some(k) == quit_at {
                             WalkState::Quit
+                        } else if skip_answers && not_a_dir {
+                            WalkState::Skip
                         } else {
                             WalkState::Continue
                         }
@@ -440,7 +458,17 @@ fn expected_paths(tree: &[String]) -> Vec<String> {
     let mut set = std::collections::BTreeSet::new();
     set.insert(String::new()); // the root itself
     for p in tree {
-        let p = p.trim_end_matches('/');
+        // a dangling link is reported as an error, not as an entry; its parent directories are entries
+        let dangling = p.ends_with('@');
+        let p = p.trim_end_matches(['/', '@']);
+        let p = if dangling {
+            match p.rsplit_once('/') {
+                Some((dir, _)) => dir,
+                None => continue,
+            }
+        } else {
+            p
+        };
         let mut acc = String::new();
         for (i, comp) in p.split('/').enumerate() {
             if i > 0 {
@@ -501,6 +529,14 @@ fn judge(case: &Case, r: RunResult) -> Verdict {
     for v in &r.visited {
         *seen.entry(v.clone()).or_insert(0u32) += 1;
     }
+    let n_dangling = case.tree.iter().filter(|p| p.ends_with('@')).count();
+    let errors: Vec<String> = seen.keys().filter(|k| k.starts_with("<error")).cloned().collect();
+    for e in &errors {
+        seen.remove(e);
+    }
+    if errors.len() > n_dangling || (case.quit_at.map_or(true, |q| q >= r.visited.len()) && errors.len() != n_dangling) {
+        return Verdict::Fail(describe(format!("{} error entries were handed to the visitor, the tree has {n_dangling} dangling links", errors.len())).fact("lost-or-extra"));
+    }
     if let Some((p, n)) = seen.iter().find(|(_, n)| **n > 1) {
         return Verdict::Fail(describe(format!("entry {p:?} was handed to a visitor {n} times")).fact("duplicate"));
     }
@@ -528,6 +564,8 @@ fn judge(case: &Case, r: RunResult) -> Verdict {
     info.class_if(r.preemptions >= 1, "preemptions>=1");
     info.class_if(r.preemptions >= 3, "preemptions>=3");
     info.class_if(case.quit_at.is_some(), "quit_injected");
+    info.class_if(n_dangling > 0, "error_entries(dangling_links)");
+    info.class_if(case.skip_answers, "visitor_answers_skip_to_non_directories");
     info.class_if(case.quit_at.map_or(false, |q| q < r.visited.len()), "quit_took_effect");
     info.class_if(r.counts.get("quit_write").copied().unwrap_or(0) >= 1, "quit_flag_written");
     info.class(match case.workers {
@@ -555,6 +593,8 @@ fn shapes() -> Vec<Vec<String>> {
         s(&["d1/x", "d1/y", "d2/e/x", "d2/e/y", "d2/f/", "d3/", "f1", "f2"]),
         s(&["a/b/c/d/e/f/g/h/i/j"]),
         s(&["m/a", "m/b", "m/c", "n/a", "n/b", "o/p/q/r", "s"]),
+        s(&["d/a", "d/l@", "d/z", "d/e/x"]),                                   // an error entry among siblings
+        s(&["l@", "a/x", "a/m@", "a/y", "z"]),
     ]
 }
 
@@ -595,7 +635,8 @@ pub fn gen_case(t: &mut Tape) -> Case {
         let v = (0..len).map(|_| if t.chance(1, 2) { 0 } else { (t.raw() >> 16) as u16 }).collect();
         Chooser::Vector(v)
     };
-    Case { tree, workers, chooser, quit_at }
+    let skip_answers = t.chance(1, 4);
+    Case { tree, workers, chooser, quit_at, skip_answers }
 }
 
 /// Exhaustive enumeration of schedules with at most `p` preemptions for one
@@ -607,7 +648,7 @@ fn exhaustive(pc: &PropCtx, sub: &str, tree: &[String], workers: usize, quit_at:
         if pc.has_failure() || runs >= cap {
             break;
         }
-        let case = Case { tree: tree.to_vec(), workers, chooser: Chooser::Sparse(pre.clone()), quit_at };
+        let case = Case { tree: tree.to_vec(), workers, chooser: Chooser::Sparse(pre.clone()), quit_at, skip_answers: false };
         let (v, decisions) = evaluate(&case);
         runs += 1;
         if !pc.absorb(sub, &case, v) {
